@@ -167,7 +167,11 @@ def run(ctx):
         # names where one is a prefix of another (x / x2 / x_1, a / ab / ab1): the spellings most likely to be confused or mis-sorted
         ns = list(s_["def"]["state"]) + list(s_["def"]["control"]) + list(s_["def"]["calib"])
         return sum(1 for a in ns for b in ns if a != b and b.startswith(a))
-    order = sorted(range(len(scns)), key=lambda i: -(lookalikes(scns[i]) + lookalikes(twins[i])))[:ncpp]
+    def caseorder(s_):
+        # a role whose names sort differently by code point and ignoring case (B, a / a_b, aB, Ab): any layout that is sorted the
+        # other way round somewhere shows there
+        return sum(3 for role in ("state", "control", "calib") if sorted(s_["def"][role]) != sorted(s_["def"][role], key=lambda n: (n.lower(), n)))
+    order = sorted(range(len(scns)), key=lambda i: -(lookalikes(scns[i]) + lookalikes(twins[i]) + caseorder(scns[i]) + caseorder(twins[i])))[:ncpp]
     rc1 = cppcheck.replay_cpp(ctx, [scns[i] for i in order], cse_settings=(True,), kind="ekf")
     k1 = cppcheck.record(ctx, rc1, key_prefix="cpp:original:")
     rc2 = cppcheck.replay_cpp(ctx, [twins[i] for i in order], cse_settings=(True,), kind="ekf")
